@@ -1,6 +1,8 @@
 //! Conformance harness for helgoboss-midi: drives the real code, records, compares only by
 //! `==` against values TLC produced.  All verdicts are TLC's.
 mod alloc;
+mod chunks;
+mod ints;
 #[cfg(feature = "std")]
 mod edges;
 #[cfg(feature = "std")]
@@ -28,6 +30,7 @@ fn main() {
         "edges" => edges::run(&args[2..]),
         #[cfg(feature = "std")]
         "table" => pure::run(&args[2..]),
+        "ints" => ints::run(&args[2..]),
         m => {
             eprintln!("unknown mode {m}");
             std::process::exit(2);
